@@ -159,25 +159,25 @@ func (r *Resolver) AutoTA() {
 
 	tombstones, err := readTombstones(tombstonePath)
 	if err != nil {
-		// Distinguish "transient inability to read" from "actual
-		// corruption". A sharing violation on Windows (concurrent
-		// writer renaming over the file) or a permission hiccup is
-		// not the same as a malformed gob payload. We only fail
-		// closed when we successfully read bytes that don't decode
-		// — readTombstones surfaces that as errCorruptTombstones.
-		// Other open errors leave us with an empty in-memory map
-		// and the next AutoTA tick (or a process restart in the
-		// non-transient case) can re-load.
+		// The revocation store exists but cannot be read - its bytes do
+		// not decode (errCorruptTombstones) or the file cannot be opened
+		// at all (permissions, I/O error, descriptor exhaustion). Either
+		// way the revocations it records are unknown to this run, and
+		// configuration or the state file may still list a key it had
+		// revoked: proceeding with an empty in-memory map would publish
+		// that key as a trust anchor again. Fail closed, as for the
+		// dual-write failure below; a later run that can read the store
+		// and completes its writes restores the trust set.
 		if errors.Is(err, errCorruptTombstones) {
 			zlog.Error("Trust anchor tombstones file corrupted — clearing in-memory trust set and aborting refresh", "path", tombstonePath, "error", err.Error())
-			r.Lock()
-			r.rootKeys = nil
-			r.Unlock()
-			refreshResult = taRefreshPersistenceError
-			return
+		} else {
+			zlog.Error("Trust anchor tombstones file unreadable — clearing in-memory trust set and aborting refresh", "path", tombstonePath, "error", err.Error())
 		}
-		zlog.Warn("Trust anchor tombstones file unreadable — proceeding with empty in-memory tombstones", "path", tombstonePath, "error", err.Error())
-		tombstones = make(Tombstones)
+		r.Lock()
+		r.rootKeys = nil
+		r.Unlock()
+		refreshResult = taRefreshPersistenceError
+		return
 	}
 
 	// Copy legacy Revoked/Removed entries into the material-keyed
